@@ -319,6 +319,8 @@ def make_op(rng, name, n, scale, stamps, nmax=None, stamped=True):
     if name.startswith("transform"):
         t = rand_pose(rng, scale)
         prop = "prop" in name or (name.endswith("right_sim") and bool(rng.random() < 0.5))
+        if "left" in name and rng.random() < 0.4:
+            prop = True      # propagate is documented for right-multiplication only: with a left one it must be ignored
         if name.endswith("_sim"):
             # with propagation the scale compounds along the chain (pose k carries s^k): keep s^n moderate
             # (nmax = initial pose count, an upper bound of the count at this point of the history)
